@@ -312,11 +312,15 @@ def run(ctx, out):
     allassign = list(itertools.product([True, False], repeat=len(W.CELLS)))
     nontrivial, samples = 0, []
     hists = S.load_corpus("C09")
+    ncorpus = len(hists)
     for i in range(n):
         hists.append(gen_ops(ctx.rng("hist", i)))
     for i, ops in enumerate(hists):
-        rng = ctx.rng("assign", i)
-        if ctx.tier == "thorough" or i % 2 == 0:
+        # corpus histories run under every assignment; the numbering of the random ones does not depend on the
+        # number of corpus files
+        j = i - ncorpus + 1
+        rng = ctx.rng("assign", j)
+        if ctx.tier == "thorough" or i < ncorpus or j % 2 == 0:
             assignments = allassign[1:]
         else:
             assignments = [allassign[-1]] + rng.sample(allassign[1:-1], 4)
